@@ -1517,6 +1517,42 @@ fn part_c_targets(args: &Args, root: &Path, st: &mut Stats) {
 
 // ------------------------------------------------------------------ C++ classes
 
+/// C++: a virtual method that overrides a method of a *secondary* base class (and a virtual destructor) has `this`-adjusting
+/// thunks next to the method itself; the binding takes a pointer to the object and must name the method, not a thunk
+fn part_cpp_thunks(root: &Path, st: &mut Stats) {
+    let name = "cpp_thunks";
+    let dir = root.join(name);
+    std::fs::create_dir_all(&dir).unwrap();
+    let h = "struct TA { virtual long fa(long p); long a; TA(); virtual ~TA(); };\nstruct TB { virtual long fb(long p); long b; TB(); virtual ~TB(); };\nstruct TC : TA, TB { long fb(long p) override; long fa(long p) override; long plain(long p); long c; TC(); ~TC() override; };\nextern long c04_tc_dtors;\n";
+    let c = "#include \"lib.hpp\"\nlong c04_tc_dtors = 0;\nTA::TA() : a(1) {}\nTA::~TA() {}\nlong TA::fa(long p) { return p + a; }\nTB::TB() : b(5) {}\nTB::~TB() {}\nlong TB::fb(long p) { return p + b; }\nTC::TC() : c(7) {}\nTC::~TC() { c04_tc_dtors += c; }\nlong TC::fb(long p) { return p + c * 3 + b; }\nlong TC::fa(long p) { return p + c * 100 + a; }\nlong TC::plain(long p) { return p + c; }\n";
+    util::write(&dir.join("lib.hpp"), h);
+    util::write(&dir.join("lib.cpp"), c);
+    let flags = vec![dir.join("lib.hpp").to_string_lossy().into_owned(), "--formatter".into(), "none".into(), "--".to_string(), "-x".into(), "c++".into(), "-std=c++14".into()];
+    let out = generate(&flags, CbMode::None, &dir.join("ir.log"));
+    st.bump("cpp_thunk_cases", 1);
+    let Some(b) = out.bindings else { st.fail("oracle", "bindgen-failed", format!("{:?} {:?}", out.error, out.panic), name); return };
+    util::write(&dir.join("bindings.rs"), &b);
+    let Ok(inventory) = inv::inventory(&b) else { st.fail("oracle", "bindings-unparsable", String::new(), name); return };
+    for f in &inventory.fns {
+        let sym = inv::elf_symbol(&f.ident, &f.link_name);
+        let bare = sym.trim_start_matches('\u{1}').trim_start_matches('_');
+        if bare.starts_with("ZTh") || bare.starts_with("ZTv") || bare.starts_with("ZTc") {
+            st.fail("oracle", "thunk-bound", format!("binding {} refers to the thunk {sym}: called with a pointer to the object, the thunk moves `this` off it (header {h:?})", f.ident), name);
+        }
+    }
+    let caller = "#![allow(warnings)]\ninclude!(\"bindings.rs\");\nfn main() { unsafe {\n let mut o = TC::new();\n let p = &mut o as *mut TC;\n println!(\"R {} {} {}\", TC_fb(p as *mut _, 10), TC_fa(p as *mut _, 20), o.plain(30));\n TC_TC_destructor(p);\n println!(\"D {}\", c04_tc_dtors);\n} }\n";
+    util::write(&dir.join("caller.rs"), caller);
+    let (rc, _s, e) = util::run(Command::new("clang++").args(["-O1", "-w", "-std=c++14", "-c"]).arg(dir.join("lib.cpp")).arg("-o").arg(dir.join("lib.o")).current_dir(&dir));
+    if rc != 0 { st.fail("oracle", "generator-c-invalid", e.chars().take(800).collect(), name); return; }
+    let (rc, _s, e) = util::run(Command::new("rustc").args(["--edition", "2021", "--cap-lints", "allow", "-C", "opt-level=1"]).arg("-C").arg(format!("link-arg={}", dir.join("lib.o").display())).args(["-C", "link-arg=-lstdc++"]).arg("-o").arg(dir.join("caller")).arg(dir.join("caller.rs")).current_dir(&dir));
+    if rc != 0 { st.fail("oracle", "rustc-or-link", format!("thunk probe: {}", e.chars().take(1500).collect::<String>()), name); return; }
+    let (_rc, so, _e) = util::run(&mut Command::new(dir.join("caller")));
+    // TC::fb(10) = 10 + 7*3 + 5, TC::fa(20) = 20 + 700 + 1, plain(30) = 37, destructor adds c = 7
+    if so.trim() != "R 36 721 37\nD 7" { st.fail("oracle", "cpp-thunk-call", format!("calls through the bindings of overriding virtual methods: expected \"R 36 721 37 / D 7\", got {:?} (header {h:?})", so.trim()), name); }
+    else { st.distinct.insert("cpp:thunks:ok".into()); }
+    let _ = std::fs::remove_dir_all(&dir);
+}
+
 fn part_cpp(args: &Args, root: &Path, st: &mut Stats) {
     let n = if args.thorough() { 200 } else { 6 };
     let mut r = Rng::new(args.seed ^ 0xC99);
@@ -1617,7 +1653,7 @@ fn main() {
     let want = |p: &str| only.as_deref().map_or(true, |o| o.split(',').any(|x| x == p));
     if want("a") { part_a(&args, &mut st); }
     if want("c") { part_c_probes(&root, &mut st); part_c_nested(&args, &root, &mut st); part_c_targets(&args, &root, &mut st); }
-    if want("cpp") { part_cpp(&args, &root, &mut st); }
+    if want("cpp") { part_cpp_thunks(&root, &mut st); part_cpp(&args, &root, &mut st); }
     if want("b") { part_b(&args, &root, &mut st); }
     let mut j = String::from("{\n");
     let _ = writeln!(j, " \"tier\": {}, \"seed\": {},", json_str(&args.tier), args.seed);
